@@ -118,10 +118,12 @@ CondCases == UNION {CondCasesOf(fam) : fam \in Families}
 (* narrow types of the conditioning value(s) with dependence callables that square / invert   *)
 (* x (a + b x^2, a + b x^-1): the callable must see the values as doubles (an int16 square     *)
 (* wraps, a float16 square overflows, an integer to the power -1 raises); every parameter of   *)
-(* the family is dependent                                                                     *)
+(* the family is dependent.  pdf / cdf / icdf only: a sampler fed with the inf / wrapped values  *)
+(* of a defective tree (von Mises kappa = inf) never returns.                                   *)
 GivenDtypes == {"intlist", "int16array", "int64array", "int16scalar", "int64scalar", "float16array"}
 DtypeFns == {"sq", "inv"}
-DtypeCases == {<<fam, gk, fn, m>> : fam \in Families, gk \in GivenDtypes, fn \in DtypeFns, m \in Methods}
+DtypeCases == {<<fam, gk, fn, m>> : fam \in Families, gk \in GivenDtypes, fn \in DtypeFns,
+                                    m \in Methods \ {"draw_sample"}}
 
 ----------------------------------------------------------------------------
 (* C11: fixed parameters through fitting                                      *)
